@@ -311,7 +311,7 @@ func H_C07_subquery() {
 // (cte.column) and a three-stage chain.
 func H_C07_shapes() {
 	n := verif.Choose("rows", maxRows(2, 3)+1)
-	form := verif.Choose("form", 10)
+	form := verif.Choose("form", 13)
 	doc, rows := numTable(n, "a", "b")
 	// a document key with the name the CTEs use: the CTE shadows it
 	doc["m"] = []any{Map{"a": float64(100), "b": float64(7)}}
@@ -356,6 +356,16 @@ func H_C07_shapes() {
 	case 9:
 		sql = "WITH m AS (SELECT a, b FROM t WHERE a > ?) SELECT b FROM `m[0]`"
 		stagedSQL = "SELECT b FROM `m[0]`"
+	case 10:
+		// CTE names are case-sensitive keys like any other: mixed-case names read through paths
+		sql = "WITH Big AS (SELECT a, b FROM t WHERE a > ?) SELECT a FROM `Big[(0:1)]`"
+		stagedSQL = "SELECT a FROM `m[(0:1)]`"
+	case 11:
+		sql = "WITH Big AS (SELECT a, b FROM t WHERE a > ?) SELECT x.a AS a, (SELECT b FROM `<-Big`) AS s FROM Big x"
+		stagedSQL = "SELECT x.a AS a, (SELECT b FROM `<-m`) AS s FROM m x"
+	case 12:
+		sql = "WITH Big AS (SELECT a, b FROM t WHERE a > ?), small AS (SELECT a FROM Big) SELECT a FROM small"
+		stagedSQL = "SELECT a FROM m"
 	}
 	got, gerr := runQueryQuiet(doc, verif.SQL(sql, c))
 	if form == 1 {
